@@ -129,8 +129,8 @@ pub enum Op {
 impl Op {
     fn num_operands(self) -> usize {
         match self {
-            Op::FFICallProcedure => 3,
-            Op::SetUnitConstant | Op::Call | Op::FFICallFunction | Op::BuildStructInstance => 2,
+            Op::FFICallFunction | Op::FFICallProcedure => 3,
+            Op::SetUnitConstant | Op::Call | Op::CallCallable | Op::BuildStructInstance => 2,
             Op::LoadConstant
             | Op::ApplyPrefix
             | Op::GetLocal
@@ -139,11 +139,10 @@ impl Op {
             | Op::JoinString
             | Op::JumpIfFalse
             | Op::Jump
-            | Op::CallCallable
+            | Op::Factorial
             | Op::AccessStructField
             | Op::BuildList => 1,
             Op::Negate
-            | Op::Factorial
             | Op::Add
             | Op::AddToDateTime
             | Op::Subtract
